@@ -2,11 +2,15 @@ package props
 
 import (
 	"bytes"
+	"context"
 	"errors"
 	"fmt"
+	"hash/crc32"
 	"io"
 	"math/rand/v2"
+	"os"
 	"reflect"
+	"syscall"
 	"unsafe"
 
 	"github.com/philpearl/avro"
@@ -92,7 +96,28 @@ func genHistory(c *core.Ctx, i int, maxLen int) *history {
 			}
 		}
 	}
+	// two more special families (C09 only): a block size far above any buffer the writer may have planned for,
+	// and consecutive blocks that differ in content but agree in length and CRC-32
+	giant, twins := 0, false
+	if j := i - 2*len(cases) - len(sizeSweep); j >= 0 && maxLen > 100 {
+		switch {
+		case j < 3:
+			giant = []int{17 << 20, 32 << 20, 24<<20 + 1}[j]
+		case j < 11:
+			twins = true
+		}
+		if giant > 0 || twins {
+			for _, sc := range cases {
+				if sc.Name == "HBytes" {
+					h.sc = sc
+				}
+			}
+		}
+	}
 	h.comp = compressions[r.IntN(3)]
+	if twins && i%4 != 0 {
+		h.comp = avro.CompressionSnappy
+	}
 	s, err := lib.SchemaFor(h.sc.RT)
 	if err != nil {
 		c.Violate("harness", "schema: "+err.Error(), nil)
@@ -113,6 +138,12 @@ func genHistory(c *core.Ctx, i int, maxLen int) *history {
 	if sweep >= 0 {
 		nv = 1 + r.IntN(2)
 	}
+	if giant > 0 {
+		nv = 1
+	}
+	if twins {
+		nv = 2 + r.IntN(3)
+	}
 	sizes := []int{}
 	for k := 0; k < nv; k++ {
 		o := gen.ValOpts{MaxMapEntries: 1, NoBigStrings: r.IntN(4) != 0}
@@ -131,9 +162,39 @@ func genHistory(c *core.Ctx, i int, maxLen int) *history {
 			}
 			v.FieldByName("B").SetBytes(b)
 		}
+		if giant > 0 || twins {
+			v = reflect.New(h.sc.RT).Elem()
+			n := 16 + r.IntN(200)
+			if giant > 0 {
+				n = 1<<20 + r.IntN(4096)
+			}
+			if twins && k > 0 {
+				n = h.vals[0].FieldByName("B").Len()
+			}
+			b := make([]byte, n)
+			for x := range b {
+				b[x] = byte(r.Uint32())
+			}
+			v.FieldByName("B").SetBytes(b)
+		}
 		enc, ok := encodeValue(c, h.sc, codec, rs, v)
 		if !ok {
 			return nil
+		}
+		if twins && k > 0 {
+			// patch the last four data bytes so that this record's encoding has the CRC-32 of the first one's
+			_, n1, _, _ := refavro.ReadLong(enc)
+			pos := n1 + v.FieldByName("B").Len() - 4
+			if !forgeCRC32(enc, pos, crc32.ChecksumIEEE(h.encs[0])) || bytes.Equal(enc, h.encs[0]) {
+				c.Violate("harness", "could not construct a CRC-32 twin", nil)
+				return nil
+			}
+			copy(v.FieldByName("B").Bytes()[v.FieldByName("B").Len()-4:], enc[pos:pos+4])
+			if enc, ok = encodeValue(c, h.sc, codec, rs, v); !ok || crc32.ChecksumIEEE(enc) != crc32.ChecksumIEEE(h.encs[0]) {
+				c.Violate("harness", "CRC-32 twin does not survive re-encoding", nil)
+				return nil
+			}
+			c.Count("crc32-twin-records", 1)
 		}
 		h.vals = append(h.vals, v)
 		h.encs = append(h.encs, enc)
@@ -174,6 +235,23 @@ func genHistory(c *core.Ctx, i int, maxLen int) *history {
 		}
 	}
 	if r.IntN(2) == 0 {
+		h.ops = append(h.ops, histOp{flush: true})
+	}
+	if giant > 0 {
+		h.bs, h.bsCls = giant, "giant"
+		h.ops = nil
+		for k := 0; k < giant>>20+3; k++ {
+			h.ops = append(h.ops, histOp{val: 0})
+		}
+		h.ops = append(h.ops, histOp{flush: true})
+		c.Count("giant-block-size-histories", 1)
+	}
+	if twins {
+		h.bs, h.bsCls = 0, "zero/crc32-twins"
+		h.ops = nil
+		for k := 0; k < 3*nv; k++ {
+			h.ops = append(h.ops, histOp{val: k % nv}) // twins end up in consecutive blocks
+		}
 		h.ops = append(h.ops, histOp{flush: true})
 	}
 	h.desc = fmt.Sprintf("%s %s bs=%d(%s) ops=%d values=%d sizes=%v", h.sc.Name, h.comp, h.bs, h.bsCls, len(h.ops), nv, sizes)
@@ -322,9 +400,71 @@ func runC09(c *core.Ctx, i int) {
 	c.Sample(map[string]any{"history": h.desc, "ops": h.opsString(), "blocks": len(cont.Blocks)})
 }
 
+// forgeCRC32 rewrites msg[pos:pos+4] so that the IEEE CRC-32 of msg becomes target (CRC-32 is affine over
+// GF(2): 32 single-bit probes give the matrix, Gaussian elimination gives the patch).
+func forgeCRC32(msg []byte, pos int, target uint32) bool {
+	if pos < 0 || pos+4 > len(msg) {
+		return false
+	}
+	copy(msg[pos:pos+4], []byte{0, 0, 0, 0})
+	c0 := crc32.ChecksumIEEE(msg)
+	var cols [32]uint32
+	for b := 0; b < 32; b++ {
+		msg[pos+b/8] = 1 << (b % 8)
+		cols[b] = crc32.ChecksumIEEE(msg) ^ c0
+		msg[pos+b/8] = 0
+	}
+	// solve sum_b x_b*cols[b] = target^c0
+	want := target ^ c0
+	type row struct {
+		v    uint32 // combination value
+		mask uint32 // which patch bits produce it
+	}
+	var basis [32]row
+	for b := 0; b < 32; b++ {
+		cur := row{cols[b], 1 << b}
+		for bit := 31; bit >= 0; bit-- {
+			if cur.v>>bit&1 == 0 {
+				continue
+			}
+			if basis[bit].v == 0 {
+				basis[bit] = cur
+				break
+			}
+			cur.v ^= basis[bit].v
+			cur.mask ^= basis[bit].mask
+		}
+	}
+	var patch uint32
+	for bit := 31; bit >= 0; bit-- {
+		if want>>bit&1 == 1 {
+			if basis[bit].v == 0 {
+				return false
+			}
+			want ^= basis[bit].v
+			patch ^= basis[bit].mask
+		}
+	}
+	for b := 0; b < 32; b++ {
+		if patch>>b&1 == 1 {
+			msg[pos+b/8] |= 1 << (b % 8)
+		}
+	}
+	return crc32.ChecksumIEEE(msg) == target
+}
+
 // ---- C16 ----
 
 var errInjected = errors.New("injected write failure")
+
+// the writer's error is whatever the writer says it is: sentinel values of the standard library (which
+// helper code likes to give a meaning of its own), wrapped sentinels, errno values, a custom type
+var c16errors = []error{errInjected, io.EOF, io.ErrShortWrite, io.ErrUnexpectedEOF, io.ErrClosedPipe, os.ErrClosed, syscall.ENOSPC, syscall.EPIPE,
+	context.DeadlineExceeded, fmt.Errorf("connection lost: %w", io.EOF), &c16customErr{"quota"}, io.ErrNoProgress}
+
+type c16customErr struct{ what string }
+
+func (e *c16customErr) Error() string { return "custom: " + e.what }
 
 type failingWriter struct {
 	buf    bytes.Buffer
@@ -333,6 +473,7 @@ type failingWriter struct {
 	mode   int // 0 accept nothing, 1 random proper prefix, 2 all but last byte
 	r      *rand.Rand
 	failed bool
+	err    error // the error the failing write reports (nil: errInjected)
 }
 
 func (w *failingWriter) Write(p []byte) (int, error) {
@@ -353,6 +494,9 @@ func (w *failingWriter) Write(p []byte) (int, error) {
 			acc = len(p)
 		}
 		w.buf.Write(p[:acc])
+		if w.err != nil {
+			return acc, w.err
+		}
 		return acc, errInjected
 	}
 	return w.buf.Write(p)
@@ -565,11 +709,12 @@ func runC16(c *core.Ctx, i int) {
 	r := c.Rand(i, 7)
 	for k := 1; k <= W; k++ {
 		for mode := 0; mode < 4; mode++ {
-			w := &failingWriter{failAt: k, mode: mode, r: r}
+			werr := c16errors[(i+k*4+mode)%len(c16errors)]
+			w := &failingWriter{failAt: k, mode: mode, r: r, err: werr}
 			res := run(w)
 			c.Eval(1)
 			c.Count("fault-runs", 1)
-			what := fmt.Sprintf("%s, write %d of %d fails (mode %d)", kind, k, W, mode)
+			what := fmt.Sprintf("%s, write %d of %d fails (mode %d) with error %q", kind, k, W, mode, werr)
 			last := res[len(res)-1]
 			for j, cr := range res {
 				if cr.pan != nil {
@@ -589,7 +734,7 @@ func runC16(c *core.Ctx, i int) {
 				c.Violate("swallowed", fmt.Sprintf("%s: the call during which the writer failed returned nil [%s]", what, h.desc), h.rep(w.buf.Bytes()))
 				return
 			}
-			if !errors.Is(last.err, errInjected) {
+			if !errors.Is(last.err, werr) {
 				c.Violate("not-wrapped", fmt.Sprintf("%s: the call returned %q which does not wrap the writer's error [%s]", what, last.err, h.desc), h.rep(w.buf.Bytes()))
 				return
 			}
@@ -611,7 +756,7 @@ func init() {
 		ID:        "C09",
 		Level:     "exploration",
 		Technique: "runtime monitoring: online trace checker - a recording io.Writer observes the bytes emitted during every Encode/Flush call of a real Encoder[T]; an executable model of the block state machine predicts, call by call, whether a block appears and what it contains",
-		Rule: "histories of 1..200 calls over {encode(record), flush} from (VERIF_SEED, i): static corpus types (records from 0 bytes to several KiB), block sizes {0,1,2,exact record size, size-1, size+1, sum of 3 records, 64, 1000, 1 MiB}, all codecs; shapes include flush first, double flush, flush with nothing pending, records hitting the threshold exactly; " +
+		Rule: "histories of 1..200 calls over {encode(record), flush} from (VERIF_SEED, i): static corpus types (records from 0 bytes to several KiB), block sizes {0,1,2,exact record size, size-1, size+1, sum of 3 records, 64, 1000, 1 MiB}, all codecs; shapes include flush first, double flush, flush with nothing pending, records hitting the threshold exactly; three histories with block sizes of 17-32 MiB filled by 1 MiB records; eight histories whose records are CRC-32 twins (same length, same CRC-32, different content) in consecutive blocks; " +
 			"distinct_nontrivial = distinct (type, block-size class, codec, length decile) combinations checked call by call",
 		Explanation: "Model: pending += r on encode; emit when the sum of pending encodings >= blockSize; on flush emit iff pending is non-empty. After every call the new bytes must be empty or exactly one block [canonical count][canonical size][payload][header sync]; count = |pending|; the decompressed payload (independent decompressor) must equal the concatenation of the pending records' encodings, each obtained at codec level and validated by the reference decoder against the value; after flush nothing stays buffered. Every call must return nil.",
 		Assumptions: []string{"map fields hold at most one entry (iteration order)", "record encodings are taken from Codec.Write, validated datum-by-datum by refavro (C02 covers the codecs themselves)"},
@@ -642,7 +787,7 @@ func init() {
 		ID:        "C16",
 		Level:     "fault_enumeration",
 		Technique: "runtime monitoring with exhaustive fault enumeration: every history is replayed once per write index k against an io.Writer that fails on its k-th write (accepting nothing / a random proper prefix / all but the last byte / the whole buffer); return values, panics and accepted bytes are checked",
-		Rule: "histories of <=30 Encoder calls (two thirds) or direct FileWriter.WriteHeader/WriteBlock sequences (one third), all codecs; a fault-free run counts the writes W, then all k in 1..W x 4 failure modes are replayed; " +
+		Rule: "histories of <=30 Encoder calls (two thirds) or direct FileWriter.WriteHeader/WriteBlock sequences (one third), all codecs; a fault-free run counts the writes W, then all k in 1..W x 4 failure modes are replayed; the failing write reports one of 12 error values in rotation (io.EOF, io.ErrShortWrite, io.ErrUnexpectedEOF, io.ErrClosedPipe, os.ErrClosed, ENOSPC, EPIPE, context.DeadlineExceeded, a wrapped io.EOF, a custom type, ...) and the call's error must wrap exactly that value; " +
 			"distinct_nontrivial = distinct (API, type, codec, W) combinations whose every write index was failed",
 		Explanation: "The call during which write k happens must return a non-nil error with errors.Is(err, injected); earlier calls return nil; nothing panics. Prefix check with the random sync marker factored out: sync positions are learnt from the fault-free output via the reference parser, both byte strings are masked there, the masked accepted bytes must be a prefix of the masked fault-free bytes, and all sync bytes inside the accepted bytes must agree with each other.",
 		Assumptions: []string{"deflate and snappy output are deterministic for identical input, so the byte layout of both runs is identical", "map fields hold at most one entry"},
